@@ -258,9 +258,18 @@ fn case(t0: &mut Tape, w: &Worker) -> CaseResult {
         return Err(Fail::new("C15:stats-file-unparsable", "statistics file cannot be parsed by an independent parser", json!({"cmd": spec1.describe(), "file_head": written.chars().take(400).collect::<String>()})));
     };
     let has_errors = tree["error_stats"]["total_errors"].as_u64().unwrap_or(0) > 0;
+    let also_write_other = ot.chance(1, 4);
+    let other_out = w.path("verify_out").with_extension(if toml_fmt { "json" } else { "toml" });
+    if also_write_other {
+        out.labels.push("verify_run_writes_other_format".into());
+    }
     let verify = |case: &mut CliCase, file: &std::path::Path, data_override: Option<Vec<u8>>| {
         let mut a = base.clone();
         a.extend(["-i".to_string(), file.display().to_string(), "-E".to_string(), n.to_string(), "-v".to_string(), "2".to_string()]);
+        if also_write_other {
+            // the verifying run writes its own statistics too, in the OTHER format (the file to compare with is read by its own format)
+            a.extend(stats_args(&other_out, !toml_fmt));
+        }
         match data_override {
             None => case.run(a, stdin),
             Some(d) => {
